@@ -21,7 +21,7 @@ pub enum Which {
 
 /// `out` is the recomposition of `b` with component `w` replaced by `new`
 /// (None = removed).
-fn is_expected(out: &[u8], b: &[u8], w: Which, new: Option<&[u8]>, slash_empty: bool) -> bool {
+fn is_expected(out: &[u8], b: &[u8], w: Which, new: Option<&[u8]>, slash_empty: bool, k: usize) -> bool {
     let s = split_ref(b);
     let mut c = comps_of(b, &s);
     match w {
@@ -31,7 +31,7 @@ fn is_expected(out: &[u8], b: &[u8], w: Which, new: Option<&[u8]>, slash_empty: 
         Which::Query => c.query = new,
         Which::Fragment => c.fragment = new,
     }
-    concat_eq(out, &recompose_pieces(&c, slash_empty))
+    concat_eq(out, &recompose_pieces(&c, slash_empty), k)
 }
 
 macro_rules! setter_body {
@@ -52,7 +52,7 @@ macro_rules! setter_body {
             // (an empty path after an authority may stay empty or become "/")
             let new = if some { Some(arg) } else { None };
             assert!(
-                is_expected(out, b, $which, new, true) || is_expected(out, b, $which, new, false),
+                is_expected(out, b, $which, new, true, N + M + 3) || is_expected(out, b, $which, new, false, N + M + 3),
                 "C05: result differs from the recomposition of the expected components"
             );
             assert!(tables::$tablek(out, N + M + 3), "C04: the buffer is no longer a valid value of its type after the setter");
@@ -125,7 +125,15 @@ macro_rules! h {
     };
 }
 
-// @h prop=C05,C04:thorough tier=quick kind=check timeout=2400 bound="UriRefBuf text <= 5 bytes, scheme argument <= 2 bytes or removal" encodes="RiRefBufImpl::set_scheme;parse::find_scheme;PathImpl::looks_like_scheme;utils::{replace,allocate_range}"
+// @h prop=C05,C04:thorough tier=quick kind=check timeout=2400 bound="UriRefBuf text <= 4 bytes, scheme argument <= 2 bytes or removal" encodes="RiRefBufImpl::set_scheme;parse::find_scheme;PathImpl::looks_like_scheme;utils::{replace,allocate_range}"
+#[cfg_attr(kani, kani::proof)]
+#[cfg_attr(kani, kani::unwind(11))]
+#[cfg_attr(kani, kani::stub(std::vec::Vec::resize, crate::stubs::vec_resize))]
+pub fn c05_urirefbuf_set_scheme_n4() {
+    urirefbuf_set_scheme::<4, 2>()
+}
+
+// @h prop=C05,C04 tier=thorough kind=check timeout=2400 bound="UriRefBuf text <= 5 bytes, scheme argument <= 2 bytes or removal" encodes="RiRefBufImpl::set_scheme;parse::find_scheme;PathImpl::looks_like_scheme;utils::{replace,allocate_range}"
 #[cfg_attr(kani, kani::proof)]
 #[cfg_attr(kani, kani::unwind(12))]
 #[cfg_attr(kani, kani::stub(std::vec::Vec::resize, crate::stubs::vec_resize))]
@@ -141,7 +149,15 @@ pub fn c05_urirefbuf_set_scheme_n6() {
     urirefbuf_set_scheme::<6, 2>()
 }
 
-// @h prop=C05,C04 tier=quick kind=check timeout=2400 bound="UriRefBuf text <= 5 bytes, authority argument <= 2 bytes or removal" encodes="RiRefBufImpl::set_authority;parse::find_authority;utils::{replace,allocate_range}"
+// @h prop=C05,C04 tier=quick kind=check timeout=2400 bound="UriRefBuf text <= 4 bytes, authority argument <= 2 bytes or removal" encodes="RiRefBufImpl::set_authority;parse::find_authority;utils::{replace,allocate_range}"
+#[cfg_attr(kani, kani::proof)]
+#[cfg_attr(kani, kani::unwind(11))]
+#[cfg_attr(kani, kani::stub(std::vec::Vec::resize, crate::stubs::vec_resize))]
+pub fn c05_urirefbuf_set_authority_n4() {
+    urirefbuf_set_authority::<4, 2>()
+}
+
+// @h prop=C05,C04 tier=thorough kind=check timeout=2400 bound="UriRefBuf text <= 5 bytes, authority argument <= 2 bytes or removal" encodes="RiRefBufImpl::set_authority;parse::find_authority;utils::{replace,allocate_range}"
 #[cfg_attr(kani, kani::proof)]
 #[cfg_attr(kani, kani::unwind(12))]
 #[cfg_attr(kani, kani::stub(std::vec::Vec::resize, crate::stubs::vec_resize))]
@@ -157,7 +173,15 @@ pub fn c05_urirefbuf_set_authority_n6() {
     urirefbuf_set_authority::<6, 2>()
 }
 
-// @h prop=C05,C04 tier=quick kind=check timeout=2400 bound="UriRefBuf text <= 5 bytes, path argument <= 3 bytes" encodes="RiRefBufImpl::set_path;parse::find_path;RiRefImpl::authority;utils::{replace,allocate_range}"
+// @h prop=C05,C04 tier=quick kind=check timeout=2400 bound="UriRefBuf text <= 4 bytes, path argument <= 3 bytes" encodes="RiRefBufImpl::set_path;parse::find_path;RiRefImpl::authority;utils::{replace,allocate_range}"
+#[cfg_attr(kani, kani::proof)]
+#[cfg_attr(kani, kani::unwind(12))]
+#[cfg_attr(kani, kani::stub(std::vec::Vec::resize, crate::stubs::vec_resize))]
+pub fn c05_urirefbuf_set_path_n4() {
+    urirefbuf_set_path::<4, 3>()
+}
+
+// @h prop=C05,C04 tier=thorough kind=check timeout=2400 bound="UriRefBuf text <= 5 bytes, path argument <= 3 bytes" encodes="RiRefBufImpl::set_path;parse::find_path;RiRefImpl::authority;utils::{replace,allocate_range}"
 #[cfg_attr(kani, kani::proof)]
 #[cfg_attr(kani, kani::unwind(13))]
 #[cfg_attr(kani, kani::stub(std::vec::Vec::resize, crate::stubs::vec_resize))]
@@ -173,7 +197,15 @@ pub fn c05_urirefbuf_set_path_n6() {
     urirefbuf_set_path::<6, 3>()
 }
 
-// @h prop=C05,C04:thorough tier=quick kind=check timeout=2400 bound="UriRefBuf text <= 5 bytes, query argument <= 2 bytes or removal" encodes="RiRefBufImpl::set_query;parse::find_query;utils::{replace,allocate_range}"
+// @h prop=C05,C04:thorough tier=quick kind=check timeout=2400 bound="UriRefBuf text <= 4 bytes, query argument <= 2 bytes or removal" encodes="RiRefBufImpl::set_query;parse::find_query;utils::{replace,allocate_range}"
+#[cfg_attr(kani, kani::proof)]
+#[cfg_attr(kani, kani::unwind(11))]
+#[cfg_attr(kani, kani::stub(std::vec::Vec::resize, crate::stubs::vec_resize))]
+pub fn c05_urirefbuf_set_query_n4() {
+    urirefbuf_set_query::<4, 2>()
+}
+
+// @h prop=C05,C04 tier=thorough kind=check timeout=2400 bound="UriRefBuf text <= 5 bytes, query argument <= 2 bytes or removal" encodes="RiRefBufImpl::set_query;parse::find_query;utils::{replace,allocate_range}"
 #[cfg_attr(kani, kani::proof)]
 #[cfg_attr(kani, kani::unwind(12))]
 #[cfg_attr(kani, kani::stub(std::vec::Vec::resize, crate::stubs::vec_resize))]
@@ -189,7 +221,15 @@ pub fn c05_urirefbuf_set_query_n6() {
     urirefbuf_set_query::<6, 2>()
 }
 
-// @h prop=C05,C04:thorough tier=quick kind=check timeout=2400 bound="UriRefBuf text <= 5 bytes, fragment argument <= 2 bytes or removal" encodes="RiRefBufImpl::set_fragment;parse::find_fragment;utils::{replace,allocate_range}"
+// @h prop=C05,C04:thorough tier=quick kind=check timeout=2400 bound="UriRefBuf text <= 4 bytes, fragment argument <= 2 bytes or removal" encodes="RiRefBufImpl::set_fragment;parse::find_fragment;utils::{replace,allocate_range}"
+#[cfg_attr(kani, kani::proof)]
+#[cfg_attr(kani, kani::unwind(11))]
+#[cfg_attr(kani, kani::stub(std::vec::Vec::resize, crate::stubs::vec_resize))]
+pub fn c05_urirefbuf_set_fragment_n4() {
+    urirefbuf_set_fragment::<4, 2>()
+}
+
+// @h prop=C05,C04 tier=thorough kind=check timeout=2400 bound="UriRefBuf text <= 5 bytes, fragment argument <= 2 bytes or removal" encodes="RiRefBufImpl::set_fragment;parse::find_fragment;utils::{replace,allocate_range}"
 #[cfg_attr(kani, kani::proof)]
 #[cfg_attr(kani, kani::unwind(12))]
 #[cfg_attr(kani, kani::stub(std::vec::Vec::resize, crate::stubs::vec_resize))]
@@ -319,7 +359,15 @@ setter_body!(iribuf_set_scheme, IriBuf, t_iri_iri_valid_k, mk_iribuf, Which::Sch
 setter_body!(iribuf_set_path, IriBuf, t_iri_iri_valid_k, mk_iribuf, Which::Path, v_iri_path,
     |x: &mut IriBuf, a: Option<&[u8]>| x.set_path(unsafe { iri::Path::new_unchecked(as_str(a.unwrap())) }), false);
 
-// @h prop=C05,C04:thorough tier=quick kind=check timeout=2400 bound="UriBuf text <= 5 bytes, scheme argument <= 2 bytes" encodes="RiBufImpl::set_scheme;parse::scheme"
+// @h prop=C05,C04:thorough tier=quick kind=check timeout=2400 bound="UriBuf text <= 4 bytes, scheme argument <= 2 bytes" encodes="RiBufImpl::set_scheme;parse::scheme"
+#[cfg_attr(kani, kani::proof)]
+#[cfg_attr(kani, kani::unwind(11))]
+#[cfg_attr(kani, kani::stub(std::vec::Vec::resize, crate::stubs::vec_resize))]
+pub fn c05_uribuf_set_scheme_n4() {
+    uribuf_set_scheme::<4, 2>()
+}
+
+// @h prop=C05,C04 tier=thorough kind=check timeout=2400 bound="UriBuf text <= 5 bytes, scheme argument <= 2 bytes" encodes="RiBufImpl::set_scheme;parse::scheme"
 #[cfg_attr(kani, kani::proof)]
 #[cfg_attr(kani, kani::unwind(12))]
 #[cfg_attr(kani, kani::stub(std::vec::Vec::resize, crate::stubs::vec_resize))]
